@@ -3938,10 +3938,12 @@ def _check_dependents_are_predicates(
         )
 
         if not allow_reduction:
-            if isinstance(e, (ApplyConcatApply, TreeReduce, ShuffleReduce)) and any(
+            if not isinstance(e, Blockwise) and any(
                 x._name == expr._name for x in e.walk()
             ):
-                # Only reductions over expr itself change when rows are removed
+                # Everything that is computed from expr and isn't row-wise, i.e.
+                # reductions, quantiles, groupby transforms, ..., changes when
+                # rows of expr are removed
                 return False
 
         if _is_order_dependent(e):
@@ -4050,7 +4052,6 @@ def _get_meta_map_partitions(args, dfs, func, kwargs, meta, parent_meta):
 from dask_expr._reductions import (
     All,
     Any,
-    ApplyConcatApply,
     Count,
     IdxMax,
     IdxMin,
@@ -4061,10 +4062,8 @@ from dask_expr._reductions import (
     NBytes,
     NuniqueApprox,
     Prod,
-    ShuffleReduce,
     Size,
     Sum,
-    TreeReduce,
     Var,
 )
 from dask_expr.io import IO, BlockwiseIO, FromArray, FromPandas
